@@ -79,3 +79,12 @@ Theorem C03_msgpack_output_recovers_documents :
 Proof.
   intros u vs H. split; [exact (proj1 (reader_identity u vs H))|exact (proj1 (slice_identity u vs H))].
 Qed.
+
+(* One line per document: the JSON writer never emits a raw line break inside a
+   document (controls inside strings are escaped), so the stream written for N
+   documents contains exactly N line breaks (given that ryu's float spelling
+   contains none). *)
+Theorem C03_json_one_line_per_document :
+  forall (fmt_f64 : N -> bytes), (forall b, ~ In 10%N (fmt_f64 b)) ->
+    forall vs : list jval, count_occ N.eq_dec (jwrite_docs fmt_f64 vs) 10%N = length vs.
+Proof. exact one_line_per_document. Qed.
